@@ -27,7 +27,7 @@ static FAILS: Mutex<Vec<String>> = Mutex::new(Vec::new());
 pub fn fail(suite: &str, contract: &str, input: &str, got: &str, want: &str) {
     let cut = |s: &str| if s.len() > 600 { format!("{}..", &s[..600]) } else { s.to_string() };
     let line = format!("NATIVE-FAIL suite={} contract={} input=[{}] got=[{}] want=[{}]", suite, contract, cut(input), cut(got), cut(want));
-    println!("{}", line);
+    { let _g = STDOUT_LOCK.lock().unwrap_or_else(|e| e.into_inner()); println!("{}", line); }
     FAILS.lock().unwrap().push(format!("{}|{}", suite, line));
 }
 pub fn check(ok: bool, suite: &str, contract: &str, input: &str, got: &str, want: &str) -> bool {
@@ -37,7 +37,7 @@ pub fn check(ok: bool, suite: &str, contract: &str, input: &str, got: &str, want
 /// end of a suite: prints the number of evaluated cases and fails the test if anything was logged
 pub fn finish(suite: &str, cases: usize) {
     let n = FAILS.lock().unwrap().iter().filter(|l| l.starts_with(&format!("{}|", suite))).count();
-    println!("NATIVE-DONE suite={} cases={} failures={}", suite, cases, n);
+    { let _g = STDOUT_LOCK.lock().unwrap_or_else(|e| e.into_inner()); println!("NATIVE-DONE suite={} cases={} failures={}", suite, cases, n); }
     assert!(n == 0, "{} contract violation(s) in suite {}", n, suite);
 }
 
@@ -470,4 +470,29 @@ pub fn open_files_in(dir: &Path) -> Vec<String> {
     }
     v.sort();
     v
+}
+
+// ---- stdout capture (the opreturn callback prints with println!) ------------------------------------
+pub static STDOUT_LOCK: Mutex<()> = Mutex::new(());
+unsafe extern "C" { fn dup(fd: i32) -> i32; fn dup2(a: i32, b: i32) -> i32; fn close(fd: i32) -> i32; }
+/// runs f with file descriptor 1 redirected into a temp file and returns what was written.  Other test threads may
+/// print meanwhile (their lines end up here too): callers must filter by content.  The kit's own NATIVE-* lines are
+/// serialised with the same lock and cannot be swallowed.  (The suites run with --nocapture.)
+pub fn capture_stdout<F: FnOnce()>(f: F) -> String {
+    use std::os::unix::io::AsRawFd;
+    let _g = STDOUT_LOCK.lock().unwrap_or_else(|e| e.into_inner());
+    let _ = std::io::stdout().flush();
+    let tmp = tempfile::NamedTempFile::new().unwrap();
+    let out;
+    unsafe {
+        let saved = dup(1);
+        dup2(tmp.as_file().as_raw_fd(), 1);
+        let r = std::panic::catch_unwind(std::panic::AssertUnwindSafe(f));
+        let _ = std::io::stdout().flush();
+        dup2(saved, 1);
+        close(saved);
+        out = fs::read_to_string(tmp.path()).unwrap_or_default();
+        if let Err(e) = r { std::panic::resume_unwind(e); }
+    }
+    out
 }
